@@ -602,3 +602,120 @@ Proof.
   apply (lc_snake_aux r true false false); [assumption| |discriminate].
   symmetry. now apply camel_tail_true_head.
 Qed.
+
+(* ---- ToSnake is injective on lowerCamel names and on UpperCamel words ---------------
+   (the classes on which it has a left inverse); across classes it is not:
+   "fooBar", "foo_bar" and "FooBar" share one snake form *)
+Theorem to_snake_injective_lower_camel : forall a b,
+  lower_camel a = true -> lower_camel b = true -> to_snake a = to_snake b -> a = b.
+Proof.
+  intros a b Ha Hb H. rewrite <- (to_lower_camel_to_snake a Ha), <- (to_lower_camel_to_snake b Hb).
+  now rewrite H.
+Qed.
+
+Theorem to_snake_injective_upper_word : forall a b,
+  upper_word a = true -> upper_word b = true -> to_snake a = to_snake b -> a = b.
+Proof.
+  intros a b Ha Hb H.
+  rewrite <- (to_camel_to_snake_upper_word a Ha), <- (to_camel_to_snake_upper_word b Hb).
+  now rewrite H.
+Qed.
+
+Theorem to_snake_collision_witness :
+  let a := [102;111;111;66;97;114] in       (* "fooBar" *)
+  let b := [102;111;111;95;98;97;114] in    (* "foo_bar" *)
+  let c := [70;111;111;66;97;114] in        (* "FooBar" *)
+  a <> b /\ a <> c /\ to_snake a = to_snake b /\ to_snake a = to_snake c
+  /\ lower_camel a = true /\ ident b = true /\ upper_word c = true.
+Proof. cbv zeta. repeat split; try discriminate; vm_compute; reflexivity. Qed.
+
+(* ---- ToScreamingSnake is ToSnake in upper case ------------------------------------------ *)
+Lemma conv_true_upper : forall c, conv true c = to_upper (conv false c).
+Proof.
+  intros c. unfold conv, to_upper.
+  destruct (is_low c) eqn:El.
+  - rewrite (low_not_cap c El). cbn [andb negb]. rewrite El. reflexivity.
+  - destruct (is_cap c) eqn:Ec; cbn [andb negb].
+    + rewrite (cap_lower_is_low c Ec). lia.
+    + now rewrite El.
+Qed.
+
+Lemma to_upper_other : forall c, is_low c = false -> to_upper c = c.
+Proof. intros c H. unfold to_upper. now rewrite H. Qed.
+
+Theorem screaming_loop_is_upper_snake : forall s pc,
+  delimited_go 95 true pc s = map to_upper (delimited_go 95 false pc s).
+Proof.
+  induction s as [|c r IH]; intros pc; [reflexivity|].
+  rewrite !delimited_go_cons.
+  assert (Hif : forall b : bool, map to_upper (if b then [95] else []) = if b then [95] else []).
+  { intros []; reflexivity. }
+  destruct (is_cap c) eqn:Ec; [|destruct (is_low c) eqn:El; [|destruct (is_num c) eqn:En]].
+  - rewrite map_app, Hif. cbn [map]. rewrite map_app, Hif, <- IH, conv_true_upper. reflexivity.
+  - cbn [map]. rewrite map_app, Hif, <- IH, conv_true_upper. reflexivity.
+  - cbn [map]. rewrite map_app, Hif, <- IH, (to_upper_other c El). reflexivity.
+  - cbn [map]. rewrite <- IH. f_equal. destruct (is_sep c); [reflexivity|]. now rewrite (to_upper_other c El).
+Qed.
+
+Theorem to_screaming_snake_upper : forall s, to_screaming_snake s = map to_upper (to_snake s).
+Proof. intros s. apply screaming_loop_is_upper_snake. Qed.
+
+(* ---- ToCamel / ToLowerCamel output only letters and digits; for an identifier that starts
+        with a letter the result of ToCamel starts with a capital (a proto message name) ------ *)
+Definition alnum (c : N) : bool := is_cap c || is_low c || is_num c.
+
+Lemma camel_go_alnum : forall s f cn pc, forallb alnum (camel_go f cn pc s) = true.
+Proof.
+  induction s as [|v0 r IH]; intros f cn pc; [reflexivity|]. cbn [camel_go].
+  destruct (is_cap v0 || is_low v0) eqn:El.
+  - cbn [forallb]. rewrite IH, andb_true_r. apply orb_true_iff in El.
+    destruct El as [Hc|Hl].
+    + rewrite (cap_not_low v0 Hc). rewrite Hc.
+      destruct cn; [unfold alnum; now rewrite Hc|].
+      destruct f; [unfold alnum; now rewrite (cap_lower_is_low v0 Hc), orb_true_r|].
+      destruct pc; cbn [andb]; unfold alnum; [now rewrite (cap_lower_is_low v0 Hc), orb_true_r|now rewrite Hc].
+    + rewrite Hl, (low_not_cap v0 Hl), andb_false_r.
+      destruct cn; [unfold alnum; now rewrite (low_upper_is_cap v0 Hl)|].
+      destruct f; unfold alnum; now rewrite Hl, orb_true_r.
+  - apply orb_false_iff in El. destruct El as [Ec Elw].
+    assert (Ev : (if cn then if is_low v0 then v0 - 32 else v0
+                  else if f then if is_cap v0 then v0 + 32 else v0
+                  else if pc && is_cap v0 then v0 + 32 else v0) = v0).
+    { rewrite Ec, Elw, andb_false_r. destruct cn, f; reflexivity. }
+    rewrite Ev. destruct (is_num v0) eqn:En; [|apply IH].
+    cbn [forallb]. rewrite IH, andb_true_r. unfold alnum. now rewrite En, orb_true_r.
+Qed.
+
+Theorem to_camel_alnum : forall s, forallb alnum (to_camel s) = true.
+Proof. intros s. apply camel_go_alnum. Qed.
+Theorem to_lower_camel_alnum : forall s, forallb alnum (to_lower_camel s) = true.
+Proof. intros s. apply camel_go_alnum. Qed.
+
+Theorem to_camel_starts_cap : forall c r,
+  is_letter c = true -> ident (c :: r) = true ->
+  exists c' t, to_camel (c :: r) = c' :: t /\ is_cap c' = true.
+Proof.
+  intros c r Hc Hi. unfold to_camel, to_camel_init. rewrite (trim_space_ident _ Hi).
+  cbn [camel_go]. unfold is_letter in Hc. rewrite Hc.
+  destruct (is_low c) eqn:El.
+  - eexists. eexists. split; [reflexivity|]. now apply low_upper_is_cap.
+  - rewrite orb_false_r in Hc. eexists. eexists. split; [reflexivity|exact Hc].
+Qed.
+
+(* ---- ToLowerCamel on UpperCamel words lowers the first letter, hence is injective there ---- *)
+Theorem to_lower_camel_upper_word : forall c r,
+  upper_word (c :: r) = true -> to_lower_camel (c :: r) = (c + 32) :: r.
+Proof.
+  intros c r Hn. unfold to_lower_camel, to_camel_init.
+  rewrite (trim_space_ident _ (upper_word_ident _ Hn)).
+  cbn [upper_word] in Hn. apply andb_true_iff in Hn. destruct Hn as [Hc Hr].
+  cbn [camel_go]. rewrite Hc. cbn [orb]. f_equal. now apply camel_go_tail.
+Qed.
+
+Theorem to_lower_camel_injective_upper_word : forall a b,
+  upper_word a = true -> upper_word b = true -> to_lower_camel a = to_lower_camel b -> a = b.
+Proof.
+  intros [|c r] [|d s] Ha Hb H; try discriminate.
+  rewrite (to_lower_camel_upper_word c r Ha), (to_lower_camel_upper_word d s Hb) in H.
+  inversion H. f_equal. lia.
+Qed.
